@@ -381,7 +381,10 @@ func mergeRoots(
 
 			newTree, err := tree.Clone(ctx)
 			if err != nil {
-				if cfg.LogFunc != nil && skipUnreadable {
+				if !isNoSuchKey(err) || !skipUnreadable {
+					return nil, nil, 0, fmt.Errorf("clone for merging %v: %w", key, err)
+				}
+				if cfg.LogFunc != nil {
 					cfg.LogFunc(fmt.Sprintf("skipping merge un-cloneable tree %v: %v", key, err))
 				}
 				continue
@@ -391,7 +394,14 @@ func mergeRoots(
 				return nil, nil, 0, err
 			}
 			if err != nil {
-				if cfg.LogFunc != nil && skipUnreadable {
+				// Only a missing object (a version or node that was vacuumed
+				// away) makes a version skippable; any other storage error
+				// must surface, or the caller gets a table that silently
+				// lacks this version's rows.
+				if !isNoSuchKey(err) || !skipUnreadable {
+					return nil, nil, 0, fmt.Errorf("merge %v: %w", key, err)
+				}
+				if cfg.LogFunc != nil {
 					cfg.LogFunc(fmt.Sprintf("skipping merge un-cloneable tree %v: %v", key, err))
 				}
 				continue
@@ -418,6 +428,11 @@ func mergeRoots(
 	}
 
 	return tree, mergedRoots, unmergedRoots, nil
+}
+
+func isNoSuchKey(err error) bool {
+	var ae awserr.Error
+	return errors.As(err, &ae) && ae.Code() == s3.ErrCodeNoSuchKey
 }
 
 func loadRootFromAny(ctx context.Context, persist []mast.Persist, key string) (*crdt.Root, []byte, error) {
